@@ -333,11 +333,19 @@ def sim_candidates(sc):
                     c = copy.deepcopy(sc)
                     del c["script"][i][j]["acts"][k]
                     yield c
-    if len(sc["nodes"]) > 1:
+    last = len(sc["nodes"]) - 1
+    ext_on_last = sc["drv"][0] == "drive" and any(op[0] == "ext" and op[1] >= last for op in sc["drv"][1])
+    if len(sc["nodes"]) > 1 and not ext_on_last:
         c = copy.deepcopy(sc)
         c["nodes"].pop()
         c["script"].pop()
         yield c
+    if sc["drv"][0] == "drive":
+        ops = sc["drv"][1]
+        for i in range(len(ops)):
+            c = copy.deepcopy(sc)
+            c["drv"] = ("drive", ops[:i] + ops[i + 1:])
+            yield c
     for h in list(sc["handlers"]):
         if h.startswith("R") or h == "A":
             c = copy.deepcopy(sc)
